@@ -24,7 +24,7 @@ fn bit(bits: &[u8], i: usize) -> usize { ((bits[i >> 3] >> (i & 7)) & 1) as usiz
 
 /// tapes: receiver = 128 bytes of choice bits (one u32 per byte), 256 t_a, 256 r_other; sender = 512 t_b.
 /// tweak 1: the first Scalar::random draw of both parties is >= q (rejection sampling retries)
-/// tweak 2: t_a[0] = 0 and r_other[0] = 0 (receiver), tweak 3: t_b_0[0] = 0 (sender) — degenerate scalars
+/// tweak 2: t_a[0] = 0 and r_other[0] = 0 (receiver), tweak 3: t_b_0 = t_b_1 = 0 in instance 0 (sender) — degenerate scalars
 pub fn tapes(seed: u64, tweak: u32) -> (Vec<u8>, Vec<u8>) {
     let mut s = [0u8; 32]; s[..8].copy_from_slice(&seed.to_le_bytes()); s[8..12].copy_from_slice(b"eot5");
     let mut rng = rand_chacha::ChaCha20Rng::from_seed(s);
@@ -33,7 +33,7 @@ pub fn tapes(seed: u64, tweak: u32) -> (Vec<u8>, Vec<u8>) {
     match tweak {
         1 => { for b in r[128..160].iter_mut() { *b = 0xff; } for b in t[..32].iter_mut() { *b = 0xff; } }
         2 => { for b in r[128..160].iter_mut() { *b = 0; } for b in r[128 + 256 * 32..128 + 257 * 32].iter_mut() { *b = 0; } }
-        3 => { for b in t[..32].iter_mut() { *b = 0; } }
+        3 => { for b in t[..64].iter_mut() { *b = 0; } }
         _ => {}
     }
     (r, t)
@@ -185,7 +185,8 @@ fn expect_relation(cx: &mut Ctx, rel: &[u8], affected: &dyn Fn(usize) -> bool, k
 fn scenario(cx: &mut Ctx, s: &Scen) {
     cx.line = scen_line(s);
     cx.stream = s.kind.clone();
-    cx.idx = cx.rep.case(&s.kind, if s.tweak >= 2 { None } else { Some(&cx.line.clone()) });
+    let line = cx.line.clone();
+    cx.idx = cx.rep.case(&s.kind, if s.tweak >= 2 { None } else { Some(&line) });
     cx.rep.hist(&format!("kind:{}", s.kind));
     cx.rep.hist(&format!("sid-len:{}", s.sid_a.len()));
     let a = match cx.session(&s.sid_a, s.seed_a, s.tweak) { Some(a) => a, None => { cx.pred("eot:honest-failed", "honest session could not be completed".into(), String::new()); return; } };
@@ -297,34 +298,38 @@ pub fn run(o: &Opts, drv: &mut Driver, rep: &mut Report) {
             scenario(&mut cx, &sc("honest", a, &[], 0, 0, 0, 0, "-"));
             if thorough || a == 2 || round > 0 { let mut s = sc("honest", a, &[], 0, 1, 0, 0, "-"); s.seed_a ^= 0x5555; scenario(&mut cx, &s); }
         }
-        if round == 0 { for tw in [2u32, 3] { let mut s = sc("honest", 2, &[], 0, tw, 0, 0, "-"); s.seed_a ^= 0x7777; scenario(&mut cx, &s); } }
+        if round == 0 { for tw in (if thorough { vec![2u32, 3] } else { vec![3u32] }) { let mut s = sc("honest", 2, &[], 0, tw, 0, 0, "-"); s.seed_a ^= 0x7777; scenario(&mut cx, &s); } }
         // ---- different session ids on the two sides
         for a in 0..4 {
+            if !thorough && (a + round as usize) % 2 == 1 { continue; }
             let mut flipped = sids[a].clone();
             if flipped.is_empty() { flipped.push(0) } else { let k = rng.gen_range(0..flipped.len() * 8); flipped[k / 8] ^= 1 << (k % 8); }
             let mut ext = sids[a].clone(); ext.push(0);
             let other: Vec<u8> = (0..lens[a].max(1)).map(|_| rng.gen()).collect();
-            let partners: Vec<Vec<u8>> = if thorough { vec![flipped, ext, other] } else { vec![[flipped, ext, other][(a + round as usize) % 3].clone()] };
+            let partners: Vec<Vec<u8>> = if thorough { vec![flipped, ext, other] } else { vec![[flipped, ext, other][(a / 2 + round as usize) % 3].clone()] };
             for p in partners { scenario(&mut cx, &sc("diffsid", a, &p, 0, 0, 0, 0, "-")); }
         }
         // ---- cross-session substitution: session B has another sid and other tapes; also the SAME tapes under another sid
         for (a, b, same_tapes) in [(2usize, 3usize, false), (1, 2, true), (0, 1, false), (3, 2, false)].into_iter().take(if thorough { 4 } else { 2 }) {
             let seed_b = if same_tapes { seeds[a] } else { seeds[b] };
             let k = rng.gen_range(0..N); let k2 = (k + 1 + rng.gen_range(0..N - 1)) % N;
-            for kind in ["m1whole", "m1inst", "m2whole", "m2inst"] { scenario(&mut cx, &sc(kind, a, &sids[b], seed_b, 0, k, k2, "-")); }
+            let kinds: &[&str] = if thorough || !same_tapes { &["m1whole", "m1inst", "m2whole", "m2inst"] } else { &["m1whole", "m2whole"] };
+            for kind in kinds { scenario(&mut cx, &sc(kind, a, &sids[b], seed_b, 0, k, k2, "-")); }
             // another instance of the same session moved to position k
-            scenario(&mut cx, &sc("m1idx", a, &sids[a], seeds[a], 0, k, k2, "-"));
-            scenario(&mut cx, &sc("m2idx", a, &sids[a], seeds[a], 0, k, k2, "-"));
+            if thorough || !same_tapes {
+                scenario(&mut cx, &sc("m1idx", a, &sids[a], seeds[a], 0, k, k2, "-"));
+                scenario(&mut cx, &sc("m2idx", a, &sids[a], seeds[a], 0, k, k2, "-"));
+            }
             for kk in [0usize, N - 1] { if thorough { scenario(&mut cx, &sc("m1inst", a, &sids[b], seed_b, 0, kk, 0, "-")); scenario(&mut cx, &sc("m2inst", a, &sids[b], seed_b, 0, kk, 0, "-")); } }
         }
-        // ---- special encodings in every kind of slot
+        // ---- special encodings in every kind of slot (quick tier: each value once per message, slots alternate)
         for (vi, val) in ENC_VALUES.iter().enumerate() {
             let a = 2;
             for slot in 0..2 {
-                if !thorough && round == 0 && (vi + slot) % 2 == 1 && enc_valid(val) && *val != "identity" { continue; }
                 let k = [0, N - 1, rng.gen_range(0..N)][(vi + slot) % 3];
-                scenario(&mut cx, &sc("enc1", a, &[], 0, 0, k, slot, val));
-                scenario(&mut cx, &sc("enc2", a, &[], 0, 0, k, slot, val));
+                let pick = (vi + slot + round as usize) % 2 == 0;
+                if thorough || (pick && *val != "generator" && *val != "tagff" && *val != "negate") || (*val == "identity" && slot == 1) { scenario(&mut cx, &sc("enc1", a, &[], 0, 0, k, slot, val)); }
+                if thorough || pick || slot == 0 { scenario(&mut cx, &sc("enc2", a, &[], 0, 0, k, slot, val)); }
             }
         }
     }
